@@ -711,7 +711,7 @@ func TestVerifC01Upload(t *testing.T) {
 		"geometry": c01Geometry(), "chunk_size": boson.ChunkSize, "branches": boson.Branches,
 		"files":         c01SpecSumm(specs),
 		"segmentations": "single Write; FeedPipeline(bytes); no write / empty writes (l=0); 2 writes cut at {0,1,C-1,C,C+1,l-1,l}; 3 writes cut at pairs of {1,C-1,C,C+1,2C,2C+1,l-1}; fixed steps {1,7,C-1,C,C+1,2C+3,4C,5C+1}; C-steps with empty writes between; growing 1,2,3,..; FeedPipeline through readers returning at most {1,7,C-1} bytes, final bytes with or without io.EOF; FeedPipeline readers returning (0,nil): once after {0,1,C-1,C,C+1,l/2,2C,l} bytes, twice in a row after {0,C,l}, at 0+C+l/2+l of one stream, with 7-byte reads at C and twice at l/2, at C with data-with-EOF; (real: single, FeedPipeline, step C+1, step 2C+3, split@1, C-1|empty|rest, reader 100000+EOF-with-data, (0,nil) once after {0,C,l/2,l} bytes, twice after C and l, thorough: step 65537, step 1 for l<=64)",
-		"read_back":     "Size; sequential Read(buffer C) to EOF; ReadAt(len l, off 0); Seek(l/2,start)+Read to EOF with buffer C+1; every stored chunk cac.Valid"}},
+		"read_back":     "Size; sequential Read(buffer C) to EOF, then ReadAt(len min(l,C+1), off 0) on the same reader; ReadAt(len l, off 0) on a fresh reader; Seek(l/2,start)+Read to EOF with buffer C+1; every stored chunk cac.Valid"}},
 		func(x *mc.X) {
 			si := x.Choose(len(specs))
 			sp := specs[si]
@@ -731,6 +731,13 @@ func TestVerifC01Upload(t *testing.T) {
 			j := c01Open(x, u)
 			c := int(boson.ChunkSize)
 			c01ReadSeq(x, u, j, 0, c, "readback-sequential")
+			// state reached first: a read at an offset on the reader that has just been read to its end
+			if bl := c + 1; u.l > 0 {
+				if u.l < bl {
+					bl = u.l
+				}
+				c01ReadAt(x, u, j, 0, bl, "readat-after-sequential-read")
+			}
 			j2 := c01Open(x, u)
 			c01ReadAt(x, u, j2, 0, u.l, "readback-readat")
 			if u.l > 1 && (c01Scaled() || !sp.enc) {
